@@ -43,11 +43,12 @@ import (
 
 // Scenario is one node configuration inside a child (the environment is the child's own).
 type Scenario struct {
-	Kind  string   `json:"kind"`  // pow | clique
-	HTTP  []string `json:"http"`  // HTTPModules whitelist (nil: public APIs only)
-	WS    []string `json:"ws"`    // WSModules whitelist
-	WSAll bool     `json:"wsall"` // WSExposeAll
-	Sweep string   `json:"sweep"` // full | accounts | none | only
+	Kind  string    `json:"kind"`          // pow | clique
+	HTTP  []string  `json:"http"`          // HTTPModules whitelist (nil: public APIs only)
+	WS    []string  `json:"ws"`            // WSModules whitelist
+	WSAll bool      `json:"wsall"`         // WSExposeAll
+	Sweep string    `json:"sweep"`         // full | accounts | accounts-lite | none | only
+	Trs   []string  `json:"trs,omitempty"` // sweep only these transports (all four are always started and enumerated)
 	Only  *OnlyCall `json:"only,omitempty"`
 }
 
@@ -83,6 +84,7 @@ type Rec struct {
 	Args     json.RawMessage   `json:"args,omitempty"`
 	Outcome  string            `json:"outcome,omitempty"`
 	Delta    uint64            `json:"delta,omitempty"`
+	Count    uint64            `json:"count,omitempty"` // cumulative value of the signing counter after the call
 	Evidence string            `json:"evidence,omitempty"`
 	Msg      string            `json:"msg,omitempty"`
 	Ms       int64             `json:"ms,omitempty"`
@@ -97,24 +99,25 @@ const (
 var transports = []string{"inproc", "ipc", "http", "ws"}
 
 type child struct {
-	spec  ChildSpec
-	out   *os.File
-	rng   *hx.Rng
-	scen  int
-	sc    Scenario
-	stack *node.Node
-	svc   *aqua.Aquachain
-	ks    *keystore.KeyStore
-	cli   map[string]*rpcclient.Client
-	srv   map[string]*rpc.Server
-	cfg   *params.ChainConfig
-	accA  common.Address // unlocked
-	accB  common.Address // locked
-	accC  common.Address // not in the keystore
+	spec     ChildSpec
+	out      *os.File
+	rng      *hx.Rng
+	scen     int
+	sc       Scenario
+	stack    *node.Node
+	svc      *aqua.Aquachain
+	ks       *keystore.KeyStore
+	cli      map[string]*rpcclient.Client
+	srv      map[string]*rpc.Server
+	cfg      *params.ChainConfig
+	accA     common.Address // unlocked
+	accB     common.Address // locked
+	accC     common.Address // not in the keystore
 	seenTx   map[common.Hash]bool
 	lastHead uint64
 	chainSeq int
 	hook     bool
+	lastKey  string
 }
 
 func (c *child) emit(r Rec) {
@@ -191,7 +194,7 @@ func (c *child) startNode() error {
 	c.accC = crypto.PubkeyToAddress(detKey('C').PubKey())
 
 	// a private chain configuration per node start (the registry refuses duplicates)
-	chainID := uint64(618000000) + uint64(os.Getpid()%100000)*100 + uint64(c.scen*10+c.chainSeq)
+	chainID := uint64(1_000_000_000) + uint64(os.Getpid()%1_000_000)*1000 + uint64(c.chainSeq)
 	cfg := new(params.ChainConfig)
 	gen := &core.Genesis{GasLimit: 8_000_000, Difficulty: big.NewInt(1), Alloc: core.GenesisAlloc{}}
 	rich := new(big.Int).Lsh(big.NewInt(1), 100)
@@ -207,7 +210,7 @@ func (c *child) startNode() error {
 		*cfg = *params.TestChainConfig
 	}
 	cfg.ChainId = new(big.Int).SetUint64(chainID)
-	name := fmt.Sprintf("c18-%d-%d-%d", os.Getpid(), c.scen, c.chainSeq)
+	name := fmt.Sprintf("c18-%d-%d", os.Getpid(), c.chainSeq)
 	params.AddChainConfig(name, cfg)
 	gen.Config = cfg
 	c.cfg = cfg
@@ -325,7 +328,7 @@ func (c *child) stopNode() {
 }
 
 // healthy: the node is running, the four servers are the ones we dialled and every client answers rpc_modules.
-func (c *child) healthy() bool {
+func (c *child) healthy(use string) bool {
 	if c.stack == nil || c.stack.Server() == nil {
 		return false
 	}
@@ -333,7 +336,7 @@ func (c *child) healthy() bool {
 	if inproc != c.srv["inproc"] || ipc != c.srv["ipc"] || httpS != c.srv["http"] || ws != c.srv["ws"] {
 		return false
 	}
-	for _, tr := range transports {
+	for _, tr := range []string{use} {
 		if cl := c.cli[tr]; cl != nil {
 			ctx, cancel := context.WithTimeout(context.Background(), 2*time.Second)
 			var m map[string]string
@@ -407,10 +410,16 @@ func (c *child) runScenario() error {
 	var calls []call
 	for _, t := range targets {
 		naming, str := namesAccount(t.cb.ArgTypes)
-		if c.sc.Sweep == "accounts" && !naming {
+		if (c.sc.Sweep == "accounts" || c.sc.Sweep == "accounts-lite") && !naming {
+			continue
+		}
+		if len(c.sc.Trs) > 0 && !contains(c.sc.Trs, t.tr) {
 			continue
 		}
 		for _, v := range variantsFor(naming, str) {
+			if c.sc.Sweep == "accounts-lite" && !(v.String() == "A-right" || v.String() == "B-right" || v.String() == "B-wrong" || v.String() == "C-right") {
+				continue
+			}
 			if c.sc.Sweep == "only" {
 				o := c.sc.Only
 				if o == nil || o.Transport != t.tr || o.Ns != t.cb.Namespace || o.Name != t.cb.Name || o.Variant != v.String() {
@@ -434,7 +443,7 @@ func (c *child) runScenario() error {
 		if skip[key] {
 			continue
 		}
-		if !c.healthy() {
+		if !c.healthy(cl.t.tr) {
 			c.stopNode()
 			if err := c.startNode(); err != nil {
 				return fmt.Errorf("restart: %v", err)
@@ -442,7 +451,63 @@ func (c *child) runScenario() error {
 		}
 		c.doCall(key, cl.t, cl.v)
 	}
+	c.lateMining()
 	return nil
+}
+
+func contains(xs []string, x string) bool {
+	for _, y := range xs {
+		if y == x {
+			return true
+		}
+	}
+	return false
+}
+
+// lateMining: StartMining launches the miner with `go s.miner.Start(eb)`; if that goroutine had not run yet when the previous
+// call was judged, the miner is found running here. It is stopped, and whatever it signed is attributed to the previous call.
+func (c *child) lateMining() {
+	if c.svc == nil || c.stack == nil || c.stack.Server() == nil || !c.svc.IsMining() {
+		return
+	}
+	before := c.signCount()
+	c.settleMining(before)
+	ev := c.evidence(nil)
+	delta := c.signCount() - before
+	if c.lastKey != "" && (ev != "" || delta > 0) {
+		c.emit(Rec{T: "late", Key: c.lastKey, Evidence: ev, Delta: delta, Count: c.signCount()})
+	}
+}
+
+// settleMining waits for a mining-triggered seal to show up (clique: until one is observed or 3 s; pow: 100 ms), stops the
+// miner and waits until nothing moves any more.
+func (c *child) settleMining(before uint64) {
+	deadline := time.Now().Add(100 * time.Millisecond)
+	if c.sc.Kind == "clique" {
+		deadline = time.Now().Add(3 * time.Second)
+	}
+	for time.Now().Before(deadline) {
+		if c.svc.BlockChain().CurrentBlock().NumberU64() > c.lastHead || c.signCount() > before {
+			break
+		}
+		time.Sleep(20 * time.Millisecond)
+	}
+	c.restore()
+	if c.svc == nil || c.stack == nil || c.stack.Server() == nil {
+		return
+	}
+	stable := 0
+	lastN, lastH := c.signCount(), c.svc.BlockChain().CurrentBlock().NumberU64()
+	for i := 0; i < 100 && stable < 3; i++ {
+		time.Sleep(40 * time.Millisecond)
+		n, h := c.signCount(), c.svc.BlockChain().CurrentBlock().NumberU64()
+		if n == lastN && h == lastH && !c.svc.IsMining() {
+			stable++
+		} else {
+			stable = 0
+		}
+		lastN, lastH = n, h
+	}
 }
 
 // ---- argument generation -------------------------------------------------------------------------------------------
@@ -654,10 +719,12 @@ func (c *child) doCall(key string, t target, v variant) {
 		args[i] = c.genArg(at, v, "", 0)
 	}
 	aj, _ := json.Marshal(args)
+	c.lateMining()
 	c.emit(Rec{T: "begin", Key: key})
+	c.lastKey = key
 	before := c.signCount()
 	cl := c.cli[t.tr]
-	tmo := 4 * time.Second
+	tmo := 3 * time.Second
 	if t.cb.IsSub {
 		tmo = 700 * time.Millisecond // the HTTP client only learns at the deadline that notifications are unsupported
 	}
@@ -680,40 +747,18 @@ func (c *child) doCall(key string, t target, v variant) {
 	if err != nil {
 		outcome = "err:" + errClass(err)
 	}
-	// let mining-triggered sealing show up (clique: until a seal is observed or 3 s; pow: 200 ms), then stop the miner and
-	// wait until nothing moves any more, so that a late seal is attributed to the call that started the miner
-	wasMining := c.svc != nil && c.stack.Server() != nil && c.svc.IsMining()
-	if wasMining {
-		deadline := time.Now().Add(200 * time.Millisecond)
-		if c.sc.Kind == "clique" {
-			deadline = time.Now().Add(3 * time.Second)
-		}
-		for time.Now().Before(deadline) {
-			if c.svc.BlockChain().CurrentBlock().NumberU64() > c.lastHead || c.signCount() > before {
-				break
-			}
-			time.Sleep(20 * time.Millisecond)
-		}
+	if c.sc.Kind == "clique" {
+		time.Sleep(15 * time.Millisecond) // let a `go miner.Start` launched by the call run
 	}
-	c.restore()
-	if wasMining && c.svc != nil && c.stack.Server() != nil {
-		stable := 0
-		lastN, lastH := c.signCount(), c.svc.BlockChain().CurrentBlock().NumberU64()
-		for i := 0; i < 100 && stable < 3; i++ {
-			time.Sleep(40 * time.Millisecond)
-			n, h := c.signCount(), c.svc.BlockChain().CurrentBlock().NumberU64()
-			if n == lastN && h == lastH && !c.svc.IsMining() {
-				stable++
-			} else {
-				stable = 0
-			}
-			lastN, lastH = n, h
-		}
+	if c.svc != nil && c.stack.Server() != nil && c.svc.IsMining() {
+		c.settleMining(before)
+	} else {
+		c.restore()
 	}
 	ev := c.evidence(raw)
 	delta := c.signCount() - before
 	c.emit(Rec{T: "call", Key: key, Tr: t.tr, Ns: t.cb.Namespace, Name: t.cb.Name, Rcvr: strings.TrimPrefix(t.cb.Rcvr, "*"), GoName: t.cb.GoName, IsSub: t.cb.IsSub,
-		Variant: v.String(), Args: aj, Outcome: outcome, Delta: delta, Evidence: ev, Ms: time.Since(t0).Milliseconds()})
+		Variant: v.String(), Args: aj, Outcome: outcome, Delta: delta, Count: c.signCount(), Evidence: ev, Ms: time.Since(t0).Milliseconds()})
 }
 
 func errClass(err error) string {
@@ -731,10 +776,11 @@ func errClass(err error) string {
 }
 
 // evidence looks for a signature made with a keystore key, independently of the method's name:
-//   sig:    a 65-byte value in the result that recovers to a keystore account for the message we sent
-//   rawtx:  an RLP transaction in the result whose sender is a keystore account
-//   pooltx: a transaction from a keystore account that appeared in the pool during the call
-//   sealed: the chain head advanced to a block whose clique seal recovers to a keystore account
+//
+//	sig:    a 65-byte value in the result that recovers to a keystore account for the message we sent
+//	rawtx:  an RLP transaction in the result whose sender is a keystore account
+//	pooltx: a transaction from a keystore account that appeared in the pool during the call
+//	sealed: the chain head advanced to a block whose clique seal recovers to a keystore account
 func (c *child) evidence(raw json.RawMessage) string {
 	if c.svc == nil || c.stack == nil || c.stack.Server() == nil {
 		return ""
